@@ -27,7 +27,7 @@ class Ctl:
         if len(fns) != 1:
             raise Unsupported("anchor Sign::%s: %d found" % (name, len(fns)))
         self.fn = fns[0]
-        self.g = a8.ProtocolGraph(prog, self.fn, no_inline=lambda f: f["name"] == "flipdot_core::sign_type::SignType::to_bytes")
+        self.g = a8.ProtocolGraph(prog, self.fn, no_inline=lambda f: f["name"] == "flipdot_core::sign_type::SignType::to_bytes", log_on=LOG_ON)
         self.ev = self.g.ev
         a = prog.adts[SIGN]
         self.fields = [f["name"] for f in a["variants"][0]["fields"]]
@@ -254,10 +254,28 @@ class Ctl:
 
 
 _CACHE = {}
+# log macros evaluate their arguments only when the record is enabled: every controller rule set is decided twice, with the
+# global maximum level below every record (no argument runs) and above every record (all of them run)
+LOG_ON = False
+
+
+def both_log_levels(run):
+    def wrapped(chk, prog):
+        global LOG_ON
+        old = LOG_ON
+        try:
+            for lo in (False, True):
+                LOG_ON = lo
+                run(chk, prog)
+        finally:
+            LOG_ON = old
+    wrapped.__name__ = run.__name__
+    wrapped.__doc__ = run.__doc__
+    return wrapped
 
 
 def controller(prog, name):
-    k = (id(prog), name)
+    k = (id(prog), name, LOG_ON)
     if k not in _CACHE:
         _CACHE[k] = Ctl(prog, name)
     return _CACHE[k]
@@ -341,6 +359,7 @@ def ref_sig(N, d):
 # ==========================================================================================
 # C10
 # ==========================================================================================
+@both_log_levels
 def run_c10(chk, prog):
     chk.notes.append("A8: the automaton of each of Sign's six public operations is extracted from MIR (nodes = bus-call sites x call stack x attempt counter; the reply is a fresh symbol; "
                      "edges carry the code's own tests) and compared by bisimulation with the documented protocol (DESIGN.md Appendix C) for all 48 abstract replies at every node.")
@@ -422,6 +441,7 @@ def run_c10(chk, prog):
 # ==========================================================================================
 # C11
 # ==========================================================================================
+@both_log_levels
 def run_c11(chk, prog):
     chk.notes.append("Invariants on the extracted controller automaton (A8), without a reference: own address on every addressed message; a foreign-address reply is never treated "
                      "differently from an unrecognised one; success of configure/send_pages only through `own address AND received state` on the QueryState that ends a transfer; "
@@ -584,6 +604,7 @@ def transfer_invariants(chk, c, name):
 # ==========================================================================================
 # C09
 # ==========================================================================================
+@both_log_levels
 def run_c09(chk, prog):
     chk.notes.append("A8 + A3 on the transfer routine reached from configure and send_pages: SendData only after the own-address ack of the matching request; per item the chunk iterator is "
                      "item.chunks(N).enumerate(), the offset is trunc16(i*N) of that same enumerate and the data is Data::try_new of that same chunk, N = 16; the counter is 0 after the ack, "
@@ -845,11 +866,16 @@ def attempts_of(k):
 
 
 # ==========================================================================================
-def expects_reply_kinds(prog):
+def expects_reply_kinds(prog, log_on=False):
     """message kinds for which the controller accepts some non-empty reply (controller leg of C17.b)"""
+    global LOG_ON
+    old, LOG_ON = LOG_ON, log_on
+    try:
+        ctls = [controller(prog, name) for name in ENTRIES]
+    finally:
+        LOG_ON = old
     kinds = set()
-    for name in ENTRIES:
-        c = controller(prog, name)
+    for c in ctls:
         for k in c.g.order:
             sig = c.msg_sig(c.msgs[k])
             for rname, reply in c.alphabet:
